@@ -135,6 +135,21 @@ def flatArr (n : Nat) : Json :=
   .arr ((List.range n).map fun i =>
     if i % 3 == 0 then Json.str (decimalBytes i) else if i % 3 == 1 then .num (.fin (i % 2 == 0) 0 0 [i]) false else .bool (i % 2 == 0))
 
+/-- a big array: mostly null / booleans (cheap for the list-based model), a string, a number and a
+nested container every few thousand elements, also among the last ones -/
+def bigArr (n : Nat) : Json :=
+  .arr ((List.range n).map fun i =>
+    if i % 5000 == 1 || i + 2 == n then Json.str (decimalBytes i)
+    else if i % 5000 == 2 || i + 1 == n then .num (.fin (i % 2 == 0) 0 0 [i % 9999 + 1]) false
+    else if i % 7000 == 3 then .arr [.null, .str [0x78]]
+    else if i % 3 == 0 then .null else .bool (i % 2 == 0))
+
+/-- a big object: `n` pairs k0..k(n-1) in PostgreSQL's key order, values null / booleans, a number every 1000th -/
+def bigObj (n : Nat) : Json :=
+  let ks := sortKeys ((List.range n).map keyOf)
+  .obj (ks.map fun k => (k, if k.length % 3 == 0 then Json.null else if (k.getLastD 0).toNat % 10 == 7 && k.length == 5
+    then .num (.fin false 0 0 [k.length, 1]) false else .bool (k.length % 2 == 0)))
+
 /-- deterministic boundary documents (first indices of family `jsonb`) -/
 def boundaryDocs : List Json :=
   let one : Json := .num (.fin false 0 0 [1]) false
@@ -150,8 +165,10 @@ def boundaryDocs : List Json :=
   strideSizes.map flatObj ++ strideSizes.map flatArr ++
   [ .arr [flatObj 17, flatObj 33, flatArr 33], .obj [([0x61], flatObj 32), ([0x62], flatArr 64)],
     .arr [.num (.fin false 0 0 [1]) true, .num (.fin true 1 70 [1, 2]) false],
-    -- the implementation's limit (count > 10000 → nil): exactly at it, and one beyond (known finding J10K)
-    .arr (List.replicate 10000 .null), .arr (List.replicate 10001 .null) ]
+    -- around and far beyond the former cap of 10 000 elements / pairs (finding J10K, repaired by fix 10),
+    -- across 2^16 entries; an object (20 002 JEntries in one array) and a big container nested in a small one
+    .arr (List.replicate 10000 .null), .arr (List.replicate 10001 .null),
+    bigArr 20000, bigArr 70000, bigObj 10001, .obj [([0x61], bigArr 10001), ([0x62, 0x62], .str [0x78])] ]
 
 /-- which stride crossings a document exercises: (key half, value half, array, has empty container, depth) -/
 structure DocStats where
